@@ -268,7 +268,7 @@ def handle_failure(pid, leg, profile, c, kind, oracle, known, violations, known_
         _, orc, err = common.run_model(fam, cs, leg.get("mask"), [oracle], workdir, "shrink", nshards=1)
         return (not err) and bool(orc[oracle])
 
-    if len(violations) < 3:
+    if len(violations) < 1:
         try:
             small = common.shrink(c, still_fails, budget_s=25)
             cs = common.run_harness(leg["family"], [small], profile, workdir, "shrunk")
